@@ -61,7 +61,7 @@ void vk_trace(const char *fmt, ...)
 
 	static int nseg;
 
-	if (++nseg > 4000) {
+	if (++nseg > 20000) {
 		/* a run-away loop in the library: cut the trace */
 		fputs(" | OVERFLOW", stdout);
 		fflush(stdout);
@@ -87,7 +87,7 @@ void vk_end(const char *why)
 struct script {
 	int	nlists;
 	int	nact[MAXSCR];
-	char	*act[MAXSCR][MAXACT];
+	char	**act[MAXSCR];		/* grown on demand: action lists have no length limit */
 	int	invocations;
 };
 
@@ -577,8 +577,12 @@ static void parse_script(struct script *s, char *text)
 		int k = s->nlists++;
 
 		s->nact[k] = 0;
-		for (a = strtok_r(l, " ", &asave); a != NULL && s->nact[k] < MAXACT; a = strtok_r(NULL, " ", &asave))
+		s->act[k] = NULL;
+		for (a = strtok_r(l, " ", &asave); a != NULL; a = strtok_r(NULL, " ", &asave)) {
+			if ((s->nact[k] & (s->nact[k] + 31)) == 0 || s->nact[k] % 32 == 0)
+				s->act[k] = realloc(s->act[k], (s->nact[k] + 32) * sizeof(char *));
 			s->act[k][s->nact[k]++] = a;
+		}
 	}
 	/* "H..:" followed by "/" separated lists may contain empty lists: handled by strtok skipping them is
 	 * NOT wanted; the generator writes "-" for an empty list */
